@@ -202,7 +202,22 @@ def _check_sample(res, db, copies, rl, depth, desc, params=None, truth=False):
     pre = True
     if g.do_copy_number:
         if not cap.calls:
-            pre = False
+            # the structure model was never reached (the run ended before it): decide the precondition on the
+            # ideal region depths of the planted structure (exact tiling gives exactly these)
+            import math
+
+            from aldy.profile import Profile as _P
+
+            cfgs_ = [g.alleles[c[0]].cn_config for c in copies]
+            cfgs_ = [c for c in cfgs_ if c != dele]
+            cfgs_ = sorted(cfgs_, key=lambda c: c == "1")
+            full = cfgs_[:2] + ([dele] * (2 - len(cfgs_[:2])) if dele else []) + cfgs_[2:]
+            depths = tables.region_depths(g, full)
+            mx = max([v for ab in depths.values() for v in ab] + [1])
+            best, _ = cnref.table(g, _P("x", cn_parsimony=1.0 if False else 0.5), g.cn_configs, 1 + math.ceil(mx), depths, None)
+            if not best or planted_cfg not in best or best[planted_cfg] > min(best.values()) + 1e-6:
+                pre = False
+            desc = dict(desc, structure_model_not_reached=True)
         else:
             cfgs, max_cn, depths, fs, prof = cap.calls[0]
             # against the catalogue's configurations, not the candidates the run filtered them to
